@@ -26,15 +26,30 @@ _atom = st.sampled_from(["a", "b", "c", "ab", ".", "[abc]", "[a-c]", "[0-9]", "\
 _quant = st.sampled_from(["", "", "+", "{2}", "{1,2}"])
 
 
+_SAMPLE = {"a": "a", "b": "b", "c": "c", "ab": "ab", ".": "c", "[abc]": "b", "[a-c]": "c", "[0-9]": "7", "\\d": "3", "\\w": "B", "\\s": " ", "[^a]": "b", "A": "A", "0": "0", "-": "-", "\\.": "."}
+
+
 @st.composite
-def _pattern(draw, groups=False):
-    parts = []
+def _pattern(draw, groups=False, with_subject=False):
+    parts, sample = [], []
     for _ in range(draw(st.integers(1, 3))):
-        a = draw(_atom) + draw(_quant)
+        atom, q = draw(_atom), draw(_quant)
+        a = atom + q
+        reps = {"": 1, "+": draw(st.integers(1, 2)), "{2}": 2, "{1,2}": draw(st.integers(1, 2))}[q]
+        sample.append(_SAMPLE[atom] * reps)
         if groups and draw(st.booleans()):
             a = f"({a})"
         parts.append(a)
-    return "".join(parts)
+    pat = "".join(parts)
+    if not with_subject:
+        return pat
+    # a subject built to contain 1-3 matches (construction, not hoping), with random filler around them
+    inst = "".join(sample)
+    fill = st.text(alphabet="abcABC 012.-", max_size=3)
+    subj = draw(fill)
+    for _ in range(draw(st.integers(1, 3))):
+        subj += inst + draw(fill)
+    return pat, subj[:24]
 
 
 _date = st.one_of(
@@ -53,10 +68,12 @@ def _case(draw, construct):
     c = {"c": construct, "form": draw(st.sampled_from(FORMS)), "ctx": draw(st.sampled_from(CONTEXTS))}
     a: dict = {}
     if construct == "regexp_replace":
-        a = {"s": draw(st.one_of(st.none(), _subj)), "p": draw(_pattern(groups=True)), "r": draw(st.sampled_from([None, "", "X", "<\\1>", "\\1\\1", "-", "a b"]))}
+        pat, built = draw(_pattern(groups=True, with_subject=True))
+        a = {"s": draw(st.one_of(st.none(), _subj, st.just(built), st.just(built))), "p": pat, "r": draw(st.sampled_from([None, "", "X", "<\\1>", "\\1\\1", "-", "a b"]))}
     elif construct == "regexp_substr":
-        s = draw(_subj)
-        a = {"s": s, "p": draw(_pattern(groups=True)), "pos": draw(st.integers(1, max(1, len(s) + 1))), "occ": draw(st.integers(1, 3)), "params": draw(st.sampled_from([None, "c", "i", "e", "ie", "ci"])), "grp": draw(st.sampled_from([None, None, 0, 1, 2])), "nargs": draw(st.integers(2, 6))}
+        pat, built = draw(_pattern(groups=True, with_subject=True))
+        s = draw(st.one_of(_subj, st.just(built), st.just(built), st.just(built)))
+        a = {"s": s, "p": pat, "pos": draw(st.integers(1, max(1, len(s) + 1))), "occ": draw(st.integers(1, 3)), "params": draw(st.sampled_from([None, "c", "i", "e", "ie", "ci"])), "grp": draw(st.sampled_from([None, 0, 1, 1, 2])), "nargs": draw(st.sampled_from([2, 3, 4, 5, 5, 6, 6, 6]))}
     elif construct == "split":
         a = {"s": draw(st.one_of(st.none(), st.text(alphabet="ab,;| ", max_size=8))), "sep": draw(st.sampled_from([",", ";", "|", ", ", "ab", " ", "", "a"]))}
     elif construct == "trim":
